@@ -111,6 +111,7 @@ class Kernel:
         self.max_events = 2000000
         self.nevents = 0
         self.stalled = None
+        self.keep_snaps = False           # keep the server's users[] snapshot in every wait event
 
     # ------------------------------------------------------------------ log
     def emit(self, kind, who, **kw):
@@ -244,7 +245,11 @@ class Kernel:
                     p.snap_seq += 1
                 p.nwaits += 1
                 p.cause = None
-                self.emit("wait", p.name, fds=fds, timeout=to, snap=p.snap_seq)
+                if self.keep_snaps and p.snapshot:
+                    # quiescent-point hook: the users[] table as the server sees it at this select()
+                    self.emit("wait", p.name, fds=fds, timeout=to, snap=p.snap_seq, rows=p.snapshot)
+                else:
+                    self.emit("wait", p.name, fds=fds, timeout=to, snap=p.snap_seq)
                 ready = self._ready(p, fds)
                 if ready:
                     self._reply(p, struct.pack("<H%di" % len(ready), len(ready), *ready))
